@@ -357,7 +357,7 @@ def jobs(tier, seed):
         out.append({"name": f"single-{lo}", "kind": "batch", "batch": {"kind": "single", "lo": lo, "hi": lo + step, "rot": lo}})
     for lo in range(0, len(ENTRIES_PAIR), 2):
         out.append({"name": f"pair-{lo}", "kind": "batch", "batch": {"kind": "pair", "lo": lo, "hi": lo + 2, "rot": lo}})
-    n, shards = (2400, 6) if tier == "quick" else (32000, 16)
+    n, shards = (2400, 6) if tier == "quick" else (128000, 16)
     out += [{"name": f"hyp-{i}", "kind": "hyp", "seed": seed * 1000 + i, "n": n // shards} for i in range(shards)]
     return out
 
